@@ -3473,7 +3473,12 @@ class TensorDict(TensorDictBase):
                     else names
                 ),
             )
-        return super().empty(recurse=recurse)
+        return super().empty(
+            recurse=recurse,
+            batch_size=batch_size,
+            device=device,
+            names=None if names is NO_DEFAULT else names,
+        )
 
     def _select(
         self,
